@@ -130,10 +130,7 @@ def run_case(case):
     import awesomeyaml.yaml as ayyaml
     text = tdoc.render(case['doc'])
     src = f'\noriginal document:\n{text}'
-    if tdoc.alias_context_conflict(case['doc']):
-        # a node placed (through yaml aliases) below parents that hand down different inherited flags: a shared node holds the flags of the
-        # parent that adopted it last, a copied one keeps the priority of the anchor's place - no text without aliases expresses either
-        return Outcome(labels=['skip-shared-node-under-differently-flagged-parents'])
+    conflict = tdoc.alias_context_conflict(case['doc'])
     try:
         D = parse_one(text)
     except Exception as e:      # noqa
@@ -162,6 +159,8 @@ def run_case(case):
     pre = [tdoc.render(d) for d in case['pre']]
     post = [tdoc.render(d) for d in case['post']]
     labels.add('context=%d+%d' % (len(pre), len(post)))
+    if conflict:
+        labels.add('aliased-node-under-differently-flagged-parents')
     a = _merge_outcome(pre, parse_one(text), post)
     b = _merge_outcome(pre, parse_one(dumped), post)
     if a != b:
